@@ -1,6 +1,7 @@
 package cluster
 
 import (
+	"connectrpc.com/connect"
 	"context"
 	"encoding/json"
 	"fmt"
@@ -728,8 +729,17 @@ func (c *opClient) HandleEventBatch(ctx context.Context, b []*workerpb.Event) (e
 		c.w.mu.Lock()
 		c.w.Delivered[c.node.Id] = append(c.w.Delivered[c.node.Id], d)
 		c.w.mu.Unlock()
-		if err := t.Op.HandleEvent(ctx, c.sender, e); err != nil {
-			return err
+		for {
+			err := t.Op.HandleEvent(ctx, c.sender, e)
+			if err == nil {
+				break
+			}
+			// rpc.HTTPClient retries a 503 (connect's Unavailable: the operator is still
+			// loading) until the caller gives up or the peer is gone
+			if connect.CodeOf(err) != connect.CodeUnavailable || !t.alive.Load() || !c.senderAlive() || ctx.Err() != nil {
+				return err
+			}
+			time.Sleep(100 * time.Microsecond)
 		}
 	}
 	return nil
